@@ -234,6 +234,33 @@ def _assert_resolved_kwargs_valid(
     return None
 
 
+def _generate_message(contract: Contract, resolved_kwargs: Mapping[str, Any]) -> str:
+    """
+    Generate the message of the violation error.
+
+    If the values of the condition can not be re-computed, a RuntimeError which tells so is raised. The original error
+    must not escape as it is: the caller would take it for an error of the decorated function (*e.g.*, a StopIteration
+    would silently end an enclosing iteration).
+    """
+    try:
+        return icontract._represent.generate_message(
+            contract=contract, resolved_kwargs=resolved_kwargs
+        )
+    except Exception as err:
+        parts = ["Failed to recompute the values of the contract condition:\n"]
+        if contract.location is not None:
+            parts.append("{}:\n".format(contract.location))
+
+        if contract.description is not None:
+            parts.append("{}: ".format(contract.description))
+
+        parts.append(
+            icontract._represent.represent_condition(condition=contract.condition)
+        )
+
+        raise RuntimeError("".join(parts)) from err
+
+
 def _create_violation_error(
     contract: Contract, resolved_kwargs: Mapping[str, Any]
 ) -> BaseException:
@@ -241,25 +268,9 @@ def _create_violation_error(
     exception = None  # type: Optional[BaseException]
 
     if contract.error is None:
-        try:
-            msg = icontract._represent.generate_message(
-                contract=contract, resolved_kwargs=resolved_kwargs
-            )
-        except Exception as err:
-            parts = ["Failed to recompute the values of the contract condition:\n"]
-            if contract.location is not None:
-                parts.append("{}:\n".format(contract.location))
-
-            if contract.description is not None:
-                parts.append("{}: ".format(contract.description))
-
-            parts.append(
-                icontract._represent.represent_condition(condition=contract.condition)
-            )
-
-            raise RuntimeError("".join(parts)) from err
-
-        exception = ViolationError(msg)
+        exception = ViolationError(
+            _generate_message(contract=contract, resolved_kwargs=resolved_kwargs)
+        )
     elif inspect.ismethod(contract.error) or inspect.isfunction(contract.error):
         assert (
             contract.error_arg_set is not None
@@ -288,10 +299,18 @@ def _create_violation_error(
                 )
             )
 
-        msg = icontract._represent.generate_message(
-            contract=contract, resolved_kwargs=resolved_kwargs
+        exception = contract.error(
+            _generate_message(contract=contract, resolved_kwargs=resolved_kwargs)
         )
-        exception = contract.error(msg)
+
+        if not isinstance(exception, BaseException):
+            # (A class can hand out anything from its ``__new__``.)
+            raise TypeError(
+                "The instance created from the exception class supplied in the contract's error {} "
+                "is not an instance of BaseException: {!r}".format(
+                    contract.error, exception
+                )
+            )
     elif isinstance(contract.error, BaseException):
         exception = contract.error
     else:
